@@ -40,7 +40,7 @@ if [ -f orderdrv.c ]; then
 fi
 if [ -f partdrv.c ]; then
   $CC $CFLAGS -c partdrv.c -o "$OUT/obj/d_partdrv.o"
-  $CC $LDX -o "$OUT/partdrv" $(ls "$OUT"/obj/*.o | grep -v '/h_\|/d_\|lp_lp.o') "$OUT/obj/d_partdrv.o" -lm -lpthread
+  $CC $LDX -o "$OUT/partdrv" $(ls "$OUT"/obj/*.o | grep -v '/h_\|/d_') "$OUT/obj/d_partdrv.o" -lm -lpthread
 fi
 if [ -f mqdrv.c ]; then
   $CC $CFLAGS -c mqdrv.c -o "$OUT/obj/d_mqdrv.o"
